@@ -416,10 +416,24 @@ func c05Unit(j *Job, u *JobUnit) error {
 					return true
 				}
 				body := model.Marshal(v)
-				for _, alt := range alts {
+				// the same value with every unset member spelled null (proto3 JSON: null is the default value), sent as one more
+				// spelling under the plain content type
+				reqAlts := alts
+				var nullBody []byte
+				if vn, err := model.Encode(p.Msg.ProtoReflect(), model.EncOpts{Nulls: true}); err == nil {
+					if nb := model.Marshal(vn); string(nb) != string(body) {
+						reqAlts = append(append(reqAlts[:0:0], alts...), ctAlt{"nulls", hdr})
+						nullBody = nb
+					}
+				}
+				for _, alt := range reqAlts {
 					cell := cellBase + ",dir=request#" + devClass(p)
 					if alt.key != "" {
 						cell = cellBase + ",dir=request,ct=" + alt.key + "#" + devClass(p)
+					}
+					body := body
+					if alt.key == "nulls" {
+						body = nullBody
 					}
 					f.reset()
 					f.handler = func(context.Context, string, proto.Message) (proto.Message, error) { return outDefault, nil }
@@ -428,7 +442,7 @@ func c05Unit(j *Job, u *JobUnit) error {
 						t.viol(cell, "no_response", err.Error(), p.Labels)
 						continue
 					}
-					if alt.key != "" && len(f.calls) == 0 && ex.Panic == "" {
+					if alt.key != "" && alt.key != "nulls" && len(f.calls) == 0 && ex.Panic == "" {
 						t.hit(cellBase+",ct="+alt.key, "not_dispatched_unjudged", false)
 						continue
 					}
